@@ -33,6 +33,38 @@ Theorem C18_discover_exact_partial :
 Proof. exact discover_exact_partial. Qed.
 Print Assumptions C18_discover_exact_partial.
 
+(* what the code computes, inside root_guard only: the specification with "inside an excluded
+   path" read as the code reads it (character prefix of the rendered path) *)
+Theorem C18_discover_exact_string :
+  forall ecs user bc t p,
+  wf t -> root_guard ecs (all_markers user) bc t = true ->
+  (In p (walk_paths (render bc) t (map render ecs) user) <->
+   exists rel, p = render (bc ++ rel) /\ is_root (string_excluded ecs) (all_markers user) bc t rel).
+Proof. exact discover_exact_string. Qed.
+Print Assumptions C18_discover_exact_string.
+
+(* what the code computes, no guard at all: as above on `root_listing`, the listing of the root
+   without the first marker-named directory (only when the root is neither special-named nor
+   inside an excluded path) *)
+Theorem C18_discover_exact_general :
+  forall ecs user bc t p, wf t ->
+  (In p (walk_paths (render bc) t (map render ecs) user) <->
+   exists rel, p = render (bc ++ rel) /\
+               is_root (string_excluded ecs) (all_markers user) bc
+                       (root_listing ecs (all_markers user) bc t) rel).
+Proof. exact discover_exact_general. Qed.
+Print Assumptions C18_discover_exact_general.
+
+(* the same with the guards in their computed (boolean) form, which the harness evaluates with
+   the extracted model on every generated case and compares with its own reading of the guards *)
+Theorem C18_discover_exact_partial_dec :
+  forall ecs user bc t p,
+  wf t -> root_guardb ecs user bc t = true -> alignedb ecs bc t = true ->
+  (In p (walk_paths (render bc) t (map render ecs) user) <->
+   exists rel, p = render (bc ++ rel) /\ is_root (comp_excluded ecs) (all_markers user) bc t rel).
+Proof. exact discover_exact_partial_dec. Qed.
+Print Assumptions C18_discover_exact_partial_dec.
+
 (* outside `aligned`: excluding .../excl loses the sibling project .../excl2 *)
 Theorem C18_prefix_sibling_refuted :
   exists ecs user bc t rel,
@@ -66,6 +98,16 @@ Theorem C18_perm_same_tree :
   same_tree (Dir n files subs) (Dir n files' subs').
 Proof. exact perm_same_tree. Qed.
 Print Assumptions C18_perm_same_tree.
+
+(* listings related by permutations of files / sub-directories at ANY depth (tperm: reflexive,
+   transitive, permutation here, permutation below) give the same set *)
+Theorem C18_discover_perm_free_partial :
+  forall ecs user bc t t' p,
+  wf t -> tperm t t' -> root_guard ecs (all_markers user) bc t = true ->
+  (In p (walk_paths (render bc) t (map render ecs) user) <->
+   In p (walk_paths (render bc) t' (map render ecs) user)).
+Proof. exact discover_perm_free_partial. Qed.
+Print Assumptions C18_discover_perm_free_partial.
 
 (* outside `root_guard`: two marker directories in the root, the result follows the order *)
 Theorem C18_root_marker_dirs_order_refuted :
